@@ -22,6 +22,7 @@ package saga
 //import   "fmt"
 import "math/rand"
 import . "github.com/pbenner/autodiff"
+import   "github.com/pbenner/autodiff/verifhook"
 /* -------------------------------------------------------------------------- */
 /* -------------------------------------------------------------------------- */
 type Objective1Dense func(int, DenseFloat64Vector) (float64, float64, DenseFloat64Vector, error)
@@ -117,6 +118,7 @@ func saga1Dense(
   }
   g := rand.New(rand.NewSource(seed.Value))
   for epoch := 0; epoch < maxIterations.Value; epoch++ {
+    verifhook.Tick("saga.epoch")
     for i_ := 0; i_ < n; i_++ {
       j := g.Intn(n)
       // get old gradient
@@ -204,6 +206,7 @@ func saga2Dense(
   }
   g := rand.New(rand.NewSource(seed.Value))
   for epoch := 0; epoch < maxIterations.Value; epoch++ {
+    verifhook.Tick("saga.epoch")
     for i_ := 0; i_ < n; i_++ {
       j := g.Intn(n)
       // get old gradient
